@@ -1046,3 +1046,141 @@ Proof.
   intros Hc Hw H. rewrite (process_doc_lemma tbl t d tail Hc Hw) in H.
   apply rbind_ok in H as [x' [_ H]]. inversion H; subst. split; [reflexivity|]. split; [apply strip_clean; exact Hc|exact Hc].
 Qed.
+
+(* ================================================================================================ *)
+(* PLACEHOLDER_REGEX                                                                                 *)
+(* ================================================================================================ *)
+Lemma starts_with_prefix a : forall b t, starts_with (a ++ b) t = true -> starts_with a t = true.
+Proof.
+  induction a as [|x r IH]; intros b t H; [reflexivity|].
+  destruct t as [|y t']; cbn in *; [discriminate|]. apply andb_true_iff in H as [H1 H2]. rewrite H1, (IH _ _ H2). reflexivity.
+Qed.
+
+Lemma strip_prefix_starts p s r : strip_prefix p s = Some r -> starts_with p s = true.
+Proof. intro H. apply strip_prefix_some in H. subst. apply starts_with_app_l. Qed.
+
+Lemma match_placeholder_prefix s x : match_placeholder s = Some x ->
+  starts_with css_ph_open s = true \/ starts_with js_ph_open s = true.
+Proof.
+  unfold match_placeholder. destruct (strip_prefix css_ph_open s) eqn:E1.
+  - intros _. left. eapply strip_prefix_starts. exact E1.
+  - destruct (strip_prefix js_ph_open s) eqn:E2; [|discriminate]. intros _. right. eapply strip_prefix_starts. exact E2.
+Qed.
+
+Lemma ph_clean_tail c t : ph_clean (c :: t) -> ph_clean t.
+Proof. unfold ph_clean. cbn [contains]. intro H. apply orb_false_iff in H. tauto. Qed.
+
+Lemma no_ph_in_clean b rest : ph_clean b -> b <> [] -> (rest = [] \/ exists r', rest = 60 :: r') ->
+  match_placeholder (b ++ rest) = None.
+Proof.
+  intros Hc Hb Hr. destruct (match_placeholder (b ++ rest)) as [x|] eqn:E; [|reflexivity]. exfalso.
+  destruct b as [|c b']; [contradiction|]. apply ph_clean_tail in Hc. unfold ph_clean in Hc.
+  assert (G : forall x y, ~ In 60 (x ++ ph_word ++ y) -> starts_with (60 :: x ++ ph_word ++ y) ((c :: b') ++ rest) = true -> False).
+  { intros x0 y Hn Hs. cbn [app starts_with] in Hs. apply andb_true_iff in Hs as [_ Hs].
+    destruct (starts_with_cases _ _ _ Hs) as [L|[z [r' [Hz Hin]]]].
+    - rewrite app_assoc in L. apply starts_with_prefix in L. apply contains_prefix in L. rewrite L in Hc. discriminate.
+    - destruct Hr as [->|[r'' ->]]; [discriminate|]. inversion Hz; subst. contradiction. }
+  apply match_placeholder_prefix in E as [E|E].
+  - apply (G (s2n "link name=""CSS"%string) [34]); [|exact E].
+    cbn. intro H. repeat (destruct H as [H|H]; [discriminate|]). exact H.
+  - apply (G (s2n "script name=""JS"%string) [34]); [|exact E].
+    cbn. intro H. repeat (destruct H as [H|H]; [discriminate|]). exact H.
+Qed.
+
+Lemma strip_attr_ok pre id r : is_word6 id = true -> strip_attr pre (pre ++ id ++ attr_end ++ r) = Some r.
+Proof.
+  intro H. unfold strip_attr. rewrite strip_prefix_app.
+  destruct id as [|a [|b [|c [|d [|e [|f [|g ?]]]]]]]; try discriminate. cbn [app]. cbn [is_word6] in H. rewrite H.
+  apply strip_prefix_app.
+Qed.
+
+Lemma strip_ids_ok ids : forall fuel r, (length ids <= fuel)%nat -> forallb is_word6 ids = true ->
+  strip_attr attr_id r = None -> strip_ids fuel (flat_map id_attr ids ++ r) = (r, length ids).
+Proof.
+  induction ids as [|id ids' IH]; intros fuel r Hf Hw Hr; cbn [flat_map app length].
+  - destruct fuel; cbn [strip_ids]; [reflexivity|]. rewrite Hr. reflexivity.
+  - destruct fuel as [|f]; [cbn in Hf; lia|]. cbn [strip_ids]. cbn [forallb] in Hw. apply andb_true_iff in Hw as [H1 H2].
+    unfold id_attr at 1. rewrite <- !app_assoc. rewrite (strip_attr_ok attr_id id _ H1).
+    rewrite IH; [reflexivity| cbn in Hf; lia | exact H2 | exact Hr].
+Qed.
+
+Lemma ids_length ids r : (length ids <= length (flat_map id_attr ids ++ r))%nat.
+Proof.
+  rewrite app_length. induction ids as [|id ids' IH]; cbn [flat_map length]; [lia|].
+  unfold id_attr at 1. rewrite !app_length. change (length attr_id) with 13%nat. lia.
+Qed.
+
+Lemma length_id_attrs ids : forallb is_word6 ids = true -> length (flat_map id_attr ids) = (length ids * attr_len)%nat.
+Proof.
+  induction ids as [|id r IH]; intro H; cbn [flat_map length]; [reflexivity|].
+  cbn [forallb] in H. apply andb_true_iff in H as [H1 H2]. rewrite app_length, (IH H2).
+  destruct id as [|a [|b [|c [|d [|e [|f [|g ?]]]]]]]; try discriminate. reflexivity.
+Qed.
+
+(* the attribute part of an emitted placeholder is consumed entirely *)
+Lemma ph_attrs_emit css ids r :
+  forallb is_word6 (match css with Some c => c :: ids | None => ids end) = true ->
+  strip_attr attr_id r = None -> strip_attr attr_css r = None ->
+  ph_attrs ((match css with Some c => css_attr c | None => [] end) ++ flat_map id_attr ids ++ r) =
+  (r, length ((match css with Some c => css_attr c | None => [] end) ++ flat_map id_attr ids)).
+Proof.
+  intros Hw Hr Hr2. unfold ph_attrs. destruct css as [c|].
+  - cbn [forallb] in Hw. apply andb_true_iff in Hw as [Hc Hi]. unfold css_attr. rewrite <- !app_assoc.
+    rewrite (strip_attr_ok attr_css c _ Hc).
+    rewrite (strip_ids_ok ids _ r (ids_length ids r) Hi Hr). rewrite !app_length, (length_id_attrs ids Hi).
+    destruct c as [|a [|b [|c0 [|d [|e [|f [|g ?]]]]]]]; try discriminate. reflexivity.
+  - cbn [app].
+    assert (N : strip_attr attr_css (flat_map id_attr ids ++ r) = None).
+    { destruct ids as [|id ids']; [exact Hr2|]. reflexivity. }
+    rewrite N. rewrite (strip_ids_ok ids _ r (ids_length ids r) Hw Hr). rewrite (length_id_attrs ids Hw). reflexivity.
+Qed.
+
+Lemma match_placeholder_emit k css ids slash post :
+  forallb is_word6 (match css with Some c => c :: ids | None => ids end) = true ->
+  match_placeholder (emit_placeholder k css ids slash ++ post) = Some (k, length (emit_placeholder k css ids slash)).
+Proof.
+  intro Hw. unfold match_placeholder, emit_placeholder. destruct k.
+  - assert (N : forall x, strip_prefix css_ph_open (js_ph_open ++ x) = None) by reflexivity.
+    rewrite <- !app_assoc. rewrite N, strip_prefix_app.
+    rewrite (ph_attrs_emit css ids (js_ph_close ++ post) Hw) by reflexivity.
+    rewrite strip_prefix_app. rewrite !app_length. f_equal. f_equal. lia.
+  - rewrite <- !app_assoc. rewrite strip_prefix_app. destruct slash; cbn [app].
+    + rewrite (ph_attrs_emit css ids (47 :: 62 :: post) Hw) by reflexivity.
+      rewrite !app_length. cbn [length]. f_equal. f_equal. lia.
+    + rewrite (ph_attrs_emit css ids (62 :: post) Hw) by reflexivity.
+      rewrite !app_length. cbn [length]. f_equal. f_equal. lia.
+Qed.
+
+Lemma scan_ph_text t rest : ph_clean t -> (rest = [] \/ exists r', rest = 60 :: r') ->
+  scan match_placeholder (t ++ rest) 0 = map Ch t ++ scan match_placeholder rest 0.
+Proof.
+  intros Hc Hr. apply scan_text. intros a b -> Hb. apply no_ph_in_clean; [|exact Hb|exact Hr].
+  unfold ph_clean in *. apply contains_app_false in Hc. tauto.
+Qed.
+
+Lemma placeholder_replaced_lemma k css ids slash pre post js_b css_b :
+  forallb is_word6 (match css with Some c => c :: ids | None => ids end) = true ->
+  ph_clean pre -> ph_clean post ->
+  subst_placeholders (pre ++ emit_placeholder k css ids slash ++ post) js_b css_b =
+  (pre ++ (match k with KJs => js_b | KCss => css_b end) ++ post,
+   match k with KJs => true | KCss => false end, match k with KJs => false | KCss => true end).
+Proof.
+  intros Hw Hpre Hpost. unfold subst_placeholders.
+  assert (S : scan match_placeholder (pre ++ emit_placeholder k css ids slash ++ post) 0
+              = map Ch pre ++ Hit k :: map Ch post).
+  { rewrite scan_ph_text; [|exact Hpre|right; unfold emit_placeholder; destruct k; eexists; reflexivity].
+    rewrite (scan_hit match_placeholder _ post k).
+    - rewrite <- (app_nil_r post) at 1. rewrite (scan_ph_text post [] Hpost (or_introl eq_refl)). cbn [scan].
+      rewrite app_nil_r. reflexivity.
+    - unfold emit_placeholder. destruct k; discriminate.
+    - apply match_placeholder_emit. exact Hw. }
+  rewrite S. clear S.
+  assert (F : forall t, flat_map (fun it : item kind => match it with Ch c => [c] | Hit KJs => js_b | Hit KCss => css_b end) (map Ch t) = t).
+  { induction t as [|c r IH]; cbn; [reflexivity|]. f_equal. exact IH. }
+  assert (E1 : forall t, existsb (fun it : item kind => match it with Hit KJs => true | _ => false end) (map Ch t) = false).
+  { induction t as [|c r IH]; cbn; [reflexivity|exact IH]. }
+  assert (E2 : forall t, existsb (fun it : item kind => match it with Hit KCss => true | _ => false end) (map Ch t) = false).
+  { induction t as [|c r IH]; cbn; [reflexivity|exact IH]. }
+  rewrite flat_map_app, !existsb_app. cbn [flat_map existsb]. rewrite !F, !E1, !E2.
+  destruct k; reflexivity.
+Qed.
